@@ -26,7 +26,9 @@ VERIF = os.path.dirname(os.path.abspath(__file__))
 REPO = os.environ.get("VERIF_REPO", "/repo")
 CACHE = os.path.join(VERIF, ".cache")
 JOBS = int(os.environ.get("VERIF_JOBS", "16"))
-HARNESS_SRC = os.path.join(VERIF, "harness", "src", "main.rs")
+# VERIF_HARNESS_SNAPSHOT: evaluation of seeded defects against a frozen copy of the harness sources (so that the harness
+# can be edited while a long evaluation runs); never set by a registered command.
+HARNESS_SRC = os.path.join(os.environ.get("VERIF_HARNESS_SNAPSHOT") or os.path.join(VERIF, "harness"), "src", "main.rs")
 
 sys.path.insert(0, VERIF)
 import plans  # noqa: E402
@@ -252,7 +254,7 @@ def jobs_for(prop, tier, seed, only_leg=None):
             continue
         if only_cfgs and leg["cfg"] not in only_cfgs and not leg.get("python"):
             continue
-        if only_cfgs == ["cov"] and leg["cfg"] != "cov":
+        if only_cfgs == ["cov"] and leg["cfg"] != "cov" and not leg.get("python"):
             continue
         n = leg.get("shards", 1)
         of = leg.get("of", n)
